@@ -215,6 +215,22 @@ class Sign(Engine):
             ctx.check(bytes(k.pub) == want_pub, 'C13.pub', '%s: public key %s..., reference k*G encoding %s...' % (nm, bytes(k.pub).hex()[:20], want_pub.hex()[:20]),
                       compressed=comp, small=(d < 1 << 128))
             ctx.check(k.is_compressed == comp and k.pub.is_fullyvalid, 'C13.pub', '%s: compression flag / validity of the derived public key wrong' % nm, compressed=comp)
+        # one low-level key object asked for its public key under both compression settings, in an order
+        # derived from the key itself (the order of use is the fault)
+        try:
+            ek = self.K.CECKey()
+            ek.set_secretbytes(sb)
+            seq = [comp, not comp, comp] if d & 1 else [not comp, comp, not comp, comp]
+            for n, c in enumerate(seq):
+                ek.set_compressed(c)
+                got = ek.get_pubkey()
+                ctx.check(got == EC.point_encode(Q, c), 'C13.pub', 'CECKey.get_pubkey() after set_compressed(%r) (call %d on the same key object) returned a %d-byte key %s..., reference encoding %s...'
+                          % (c, n + 1, len(got), got.hex()[:12], EC.point_encode(Q, c).hex()[:12]), compressed=c, toggled=(n > 0))
+            ctx.probe('compression-toggled-on-one-key-object')
+        except StopRun:
+            raise
+        except Exception as e:
+            ctx.check(False, 'C13.pub', 'toggling compression on a CECKey raised %s: %s' % (type(e).__name__, e), compressed=comp)
         self.keys.append({'d': d, 'comp': comp, 'Q': Q, 'sec': sec, 'pub': want_pub, 'chain': self.chain})
         ctx.log(0, 0, 'key', '', 'c' if comp else 'u')
 
